@@ -18,6 +18,8 @@ def main():
     from c12_fns import hard_deadline, single_threaded_torch
     single_threaded_torch()
     quick = run.tier == "quick"
+    import c12_pins
+    c12_pins.for_check(run, "C12")
     run.build_and_audit(["TdVerif.Props.C12"])
     drv = run.driver()
     import json
